@@ -8,7 +8,9 @@ from zngen import *
 
 RULE = ("programs with one fault (抛出, 1/0, undefined name, index out of range, failing built-in) planted at a known line inside a chain "
         "of 0–4 nested calls, inside branches/loops, after earlier handled exceptions (stale frames must not appear), after single- and "
-        "multi-line comments and multi-line text literals (physical line counting), with LF or CRLF line ends; expected chain = call-site "
+        "multi-line comments and multi-line text literals (physical line counting), with LF or CRLF line ends; syntax errors planted on a "
+        "generator-known line: a stray ） after wide characters (caret column), and a line inserted after a complete statement that is indented "
+        "deeper than that statement, with spaces or TABs (error 20 on THAT line, caret 0); expected chain = call-site "
         "line of every active call, innermost statement line last. Non-trivial = call depth ≥ 1 or a multi-line construct before the fault.")
 ASSUMPTIONS = ["all frames are in the main module in this stream (cross-module chains are exercised by C15's module stream)"]
 PARTIAL = ("syntax-error line/caret (lexer Lines table, error printer) are the lexer/parser workers' theorems; this module covers runtime "
@@ -173,6 +175,48 @@ def run(ctx):
         width = sum(2 if ord(c) > 0x2E80 else 1 for c in pre)
         syn_lines.append('run ' + cps(text))
         syn_expect.append('main:%d caret=%d' % (i + 1, width))
+    # ---- … and a complete statement followed by an over-indented line: the error is ON that line, at its first token (caret 0) ----
+    n_over = 0
+    for src in srcs[: ctx.n(400, 8000)]:
+        lines_ = src.split('\n')
+        ok, bal, deepest, deep_at = [], 0, 0, {}
+        for i, l in enumerate(lines_):
+            if bal == 0:
+                k = (len(l) - len(l.lstrip(' '))) // 4
+                if l.strip():
+                    deepest = max(deepest, k)
+                # line i is complete here: it closes what it opens, does not end in ： ？ ， 、 【 {, and is not a 输入 line
+                b2 = bal + l.count('“') - l.count('”') + l.count('/*') - l.count('*/')
+                if b2 == 0 and l.strip() and not l.rstrip().endswith(('：', '？', '，', '、', '【', '{')) and not l.lstrip().startswith(('输入', '注', '/*', '//')) \
+                        and l.count('（') == l.count('）') and l.count('【') == l.count('】'):
+                    ok.append(i)
+                    deep_at[i] = (k, deepest)
+            bal += l.count('“') - l.count('”') + l.count('/*') - l.count('*/')
+        if not ok:
+            continue
+        i = rng.choice(ok)
+        k, deepest = deep_at[i]
+        tab = rng.random() < 0.5
+        unit = '\t' if tab else '    '
+        if tab:
+            # the whole program indented with TABs (lines inside a multi-line literal or comment keep their text)
+            bal, conv = 0, []
+            for l in lines_:
+                if bal == 0:
+                    n4 = (len(l) - len(l.lstrip(' '))) // 4
+                    conv.append('\t' * n4 + l[4 * n4:])
+                else:
+                    conv.append(l)
+                bal += l.count('“') - l.count('”') + l.count('/*') - l.count('*/')
+            lines_ = conv
+        steps = rng.choice([k + 1, k + 1, k + 2, deepest + 1])
+        between = rng.choice([[], [], [''], ['注：说明']])
+        body = rng.choice(['（显示：“余”）', '输出9', '令余设为1', '余', '）', '否则：', '拦截异常：'])
+        bad = lines_[:i + 1] + between + [unit * steps + body] + lines_[i + 1:]
+        syn_lines.append('run ' + cps('\n'.join(bad)))
+        syn_expect.append('main:%d caret=0' % (i + 1 + len(between) + 1))
+        n_over += 1
+        ctx.count('syntax-overindent-' + ('tab' if tab else 'spaces'))
     syn_go = ctx.run_go(syn_lines)
     for line, g_out, exp in zip(syn_lines, syn_go, syn_expect):
         ctx.evaluations += 1
@@ -182,7 +226,7 @@ def run(ctx):
         if got != exp:
             ctx.violation('syntax:ground-truth', line, g_out, 'expected syntax error at ' + exp)
         ctx.nontriv(line)
-    ctx.streams.append({'stream': 'syntax-planted', 'cases': len(syn_lines)})
+    ctx.streams.append({'stream': 'syntax-planted', 'cases': len(syn_lines), 'overindented': n_over})
     # the same programs with CRLF line ends: physical lines are the same
     crlf = [s.replace('\n', '\r\n') for s in srcs[: max(200, n // 5)]]
     lines = ['run ' + cps(s) for s in crlf]
